@@ -80,10 +80,10 @@ func (mi *MessageInfo) lazyUnmarshal(p pointer, num protoreflect.FieldNumber) {
 	fp := pointerOfValue(reflect.New(f.ft))
 	if multipleEntries != nil {
 		for _, entry := range multipleEntries {
-			mi.unmarshalField(lazy.Buffer()[entry.Start:entry.End], fp, f, lazy, lazy.UnmarshalFlags(), -1)
+			mi.unmarshalField(lazy.Buffer()[entry.Start:entry.End], fp, f, lazy, lazy.UnmarshalFlags(), lazy.UnmarshalDepth())
 		}
 	} else {
-		mi.unmarshalField(lazy.Buffer()[start:end], fp, f, lazy, lazy.UnmarshalFlags(), -1)
+		mi.unmarshalField(lazy.Buffer()[start:end], fp, f, lazy, lazy.UnmarshalFlags(), lazy.UnmarshalDepth())
 	}
 	if verifhook.Enabled {
 		verifhook.Ev(verifhook.LazyBeforeCAS, uintptr(num), 0, uintptr(fp.Elem().p))
@@ -234,6 +234,7 @@ func (mi *MessageInfo) unmarshalPointerLazy(b []byte, p pointer, groupTag protow
 				*lazy = &protolazy.XXX_lazyUnmarshalInfo{}
 			}
 			(*lazy).SetUnmarshalFlags(opts.flags)
+			(*lazy).SetUnmarshalDepth(opts.depth)
 			if !opts.AliasBuffer() {
 				// Make a copy of the buffer for lazy unmarshaling.
 				// Set the AliasBuffer flag so recursive unmarshal
